@@ -158,6 +158,6 @@ def fault_config():
 
 
 SUBS = [
-    Sub("images", config(), verdict, quick=200, thorough=4000),
+    Sub("images", config(), verdict, quick=560, thorough=8000),
     Sub("reject_without_symmetry", fault_config(), fault_verdict, quick=32, thorough=200),
 ]
